@@ -3,6 +3,8 @@ CONSTANTS
   NTs = {"S", "A"}
   Ts = {"a", "b"}
   MaxProds = 3
+  MinProds = 1
+  Ordered = TRUE
   MaxRhs = 2
   Shard = 0
   NShards = 1
